@@ -41,6 +41,21 @@ theorem unchecked_is_unsafe :
   · rcases hu with h2 | h2 <;> simp [h2] at h1
   · exact h1
 
+/-- **A safe function may not be a mere forwarder to an unsafe one.** Every callable function
+    whose body does nothing but pass its own (non-`self`) parameters, unvalidated, to a single
+    callee in unsafe context is itself declared `unsafe fn` — so an `unsafe` keyword dropped from
+    a forwarding trait method, impl or macro arm (`MutVector::set_len`) breaks this theorem even
+    though the name has no `_unchecked` suffix and no `# Safety` section. -/
+theorem forwarders_are_unsafe :
+    ∀ f ∈ pubFns, f.forwardsToUnsafe.isSome = true → f.isUnsafe = true := by
+  have h : (chunks.all fun c => c.all forwarderOk) = true := by decide +kernel
+  intro f hf hu
+  have := all_chunks h f hf
+  simp only [forwarderOk, Bool.or_eq_true] at this
+  rcases this with h1 | h1
+  · cases hfo : f.forwardsToUnsafe <;> simp [hfo] at hu h1
+  · exact h1
+
 /-- Translator cross-check: the `nameUnchecked` flag of every row is recomputed in Lean from
     the row's name. -/
 theorem name_unchecked_consistent :
@@ -105,7 +120,7 @@ example : pubFns.length > 400 ∧
 
 /-- The defect fixed in /repo (D13) is what the predicate rejects: the same row, safe. -/
 example : uncheckedOk ⟨"os_string::HipOsStr::slice_ref_unchecked", 0, "slice_ref_unchecked", 0, 0, .inherent,
-    false, true, true, [], [], [], "src/os_string.rs:661"⟩ = false := by decide
+    false, true, true, none, [], [], [], "src/os_string.rs:661"⟩ = false := by decide
 
 /-- `region_flow` is not vacuous: hundreds of safe rows have region-carrying inputs and outputs,
     and every may-alias name denotes at least one such row. -/
@@ -118,22 +133,43 @@ example :
     Hip `'borrow` instead of `&self`. -/
 example :
     flowOk ⟨"string::HipStr::as_borrowed", key% "string::HipStr::as_borrowed", "as_borrowed",
-      key% "as_borrowed", key% "string::HipStr", .inherent, false, false, false,
+      key% "as_borrowed", key% "string::HipStr", .inherent, false, false, false, none,
       [⟨.selfRef, .elided 0⟩, ⟨.selfHip, .named (key% "'borrow")⟩], [⟨.ref, .static⟩], [], "x"⟩ = false ∧
     flowOk ⟨"string::HipStr::as_str", key% "string::HipStr::as_str", "as_str", key% "as_str",
-      key% "string::HipStr", .inherent, false, false, false,
+      key% "string::HipStr", .inherent, false, false, false, none,
       [⟨.selfRef, .elided 0⟩, ⟨.selfHip, .named (key% "'borrow")⟩],
       [⟨.ref, .named (key% "'borrow")⟩], [], "x"⟩ = false := by
+  decide
+
+/-- The forwarder rule is exercised by real rows (all `unsafe`), and rejects the seeded defect:
+    `impl MutVector for Vec<T> { fn set_len(&mut self, len) { unsafe { self.set_len(len) } } }`. -/
+example : (pubFns.filter fun f => f.forwardsToUnsafe.isSome).length ≥ 2 ∧
+    forwarderOk ⟨"<alloc::vec::Vec<T> as MutVector>::set_len", 0, "set_len", 0, 0, .traitImpl,
+      false, false, false, some "self.set_len", [⟨.selfRef, .elided 0⟩], [], [], "x"⟩ = false := by
+  decide +kernel
+
+/-- What the generalised reference rule rejects: `Drain<'a, V>::as_slice(&self) -> &'a [T]`
+    (the region of the drain's `&'a mut V` field), while the real signature (tied to `&self`)
+    passes; a by-value `self` may give the region away. -/
+example :
+    flowOk ⟨"common::drain::Drain::as_slice", 1, "as_slice", 2, 3, .inherent, false, false, false, none,
+      [⟨.selfRef, .elided 0⟩, ⟨.selfMut, .named 7⟩], [⟨.ref, .named 7⟩], [], "x"⟩ = false ∧
+    flowOk ⟨"common::drain::Drain::as_slice", 1, "as_slice", 2, 3, .inherent, false, false, false, none,
+      [⟨.selfRef, .elided 0⟩, ⟨.selfMut, .named 7⟩], [⟨.ref, .elided 0⟩], [], "x"⟩ = true ∧
+    flowOk ⟨"T::into_inner", 1, "into_inner", 2, 3, .inherent, false, false, false, none,
+      [⟨.selfMut, .named 7⟩], [⟨.ref, .named 7⟩], [], "x"⟩ = true ∧
+    flowOk ⟨"T::get", 1, "get", 2, 3, .inherent, false, false, false, none,
+      [⟨.selfRef, .elided 0⟩, ⟨.selfOther, .named 7⟩], [⟨.ref, .named 7⟩], [], "x"⟩ = false := by
   decide
 
 /-- The declared bound is what makes `borrow_deserialize<'de: 'a, 'a, …>` pass. -/
 example :
     flowOk ⟨"bytes::serde::borrow_deserialize", key% "bytes::serde::borrow_deserialize",
-      "borrow_deserialize", key% "borrow_deserialize", key% "bytes::serde", .free, false, false, false,
+      "borrow_deserialize", key% "borrow_deserialize", key% "bytes::serde", .free, false, false, false, none,
       [⟨.argOther, .named (key% "'de")⟩], [⟨.hip, .named (key% "'a")⟩],
       [(.named (key% "'de"), .named (key% "'a"))], "x"⟩ = true ∧
     flowOk ⟨"bytes::serde::borrow_deserialize", key% "bytes::serde::borrow_deserialize",
-      "borrow_deserialize", key% "borrow_deserialize", key% "bytes::serde", .free, false, false, false,
+      "borrow_deserialize", key% "borrow_deserialize", key% "bytes::serde", .free, false, false, false, none,
       [⟨.argOther, .named (key% "'de")⟩], [⟨.hip, .named (key% "'a")⟩], [], "x"⟩ = false := by
   decide
 
